@@ -59,6 +59,11 @@ def run(ctx: Ctx) -> int:
                 if v in cvs or v == "context_var":
                     set_sites.append((fq, fn, c, v))
     ctx.floor("C09.a-set-sites", len(set_sites), 18)
+    # a restore is `reset(token)`: a `set(...)` inside a finally block puts a FIXED value back, not the previous one -
+    # a nested use of the same manager wipes out the value of the enclosing one
+    for fq, fn, c, v in set_sites:
+        if any(part == "finalbody" for _, part in enclosing_trys(c)):
+            ctx.oblige("C09.a", False, c, f"{v}.set(...) in a finally block is not a restore: when this manager is used inside another use of itself (nested serialisation of list items) the outer value is replaced by a constant for the rest of the outer call", fn=fn)
     scoped_managers: Dict[str, Set[str]] = {}  # var -> manager function names
     unscoped: Dict[str, List[Tuple[str, ast.AST, ast.Call]]] = {}
     nested_candidates = []
